@@ -3185,6 +3185,27 @@ def string_pop(ctx):
     return outs
 
 
+@contract(r'^core::str::<impl str>::contains::<char>$|^core::str::contains::<char>$')
+def str_contains_char(ctx):
+    """str::contains(c) for an ASCII character c: some byte of the text equals c (UTF-8: an ASCII byte never occurs inside another
+    character).  Exact for texts whose length is provably <= 64; longer ones are left to the generic treatment."""
+    ex, st = ctx.ex, ctx.st
+    s = BufLoc(ex, st, ctx.args[0]).val
+    c = ctx.args[1]
+    cv = concrete(c.t) if isinstance(c, Int) else None
+    if cv is None or cv >= 0x80 or not isinstance(s, Bytes):
+        return NotImplemented
+    bound = None
+    for b in (8, 16, 64):
+        r, _ = ex.check(st.pc, [z3.UGT(s.len, BV(b, 64))], why='branch')
+        if r == 'unsat':
+            bound = b
+            break
+    if bound is None:
+        return NotImplemented
+    return Bool(simp(z3.Or([z3.And(z3.ULT(BV(i, 64), s.len), s.at(BV(i, 64)) == BV(cv, 8)) for i in range(bound)])))
+
+
 @contract(r'^core::str::<impl str>::(ends_with|starts_with)::<char>$|^core::str::(ends_with|starts_with)::<char>$')
 def str_ends_with_char(ctx):
     ex, st = ctx.ex, ctx.st
